@@ -95,11 +95,176 @@ Proof. vm_compute. repeat split. Qed.
     hold for what the code says now. A change of one of these functions that is not an equivalent rewrite breaks the
     proof obligation here. *)
 From Hoot Require Import Gen.
-From Hoot.proofs Require Import Gen_equiv.
+From Hoot.proofs Require Import Gen_equiv_body.
 Theorem c19_code_max_chunk_fit : forall a m, gen_max_chunk_fit a m = max_chunk_fit a m.
 Proof. exact gen_max_chunk_fit_eq. Qed.
 Theorem c19_code_calculate_max_input : forall n, gen_calculate_max_input n = calculate_max_input n.
 Proof. exact gen_calculate_max_input_eq. Qed.
+
+(* ================================================================== strengthening (review 3) *)
+(** Proofs: proofs/C18_reach.v, proofs/C19_more.v.
+
+    LENGTH-DELIMITED BODIES.  For a sized body the clauses "never less than with the advertised maximum
+    offered" and "offering more input never reduces progress" hold on the domain the writer ACCEPTS (input
+    within what is left of the announced Content-Length): [c19_mono_input_sized], [c19_not_below_max_sized].
+    Beyond that domain a write is not shortened, it is REFUSED for every capacity
+    ([c19_sized_overoffer_refused], [Err BodyLargerThanContentLength]; an [Err] carries no call, no count and
+    no output: nothing is consumed, the caller keeps the call it had), so the unrestricted reading of
+    monotonicity is false: [c19_mono_unrestricted_refuted] (5 bytes left: offering 5 consumes 5, offering 6
+    consumes nothing).  The property's quantifier ranges over (input length, output length) pairs "around
+    multiples of the chunk size" and "whole-body loops with a fixed buffer size", i.e. over chunked writes and
+    over callers sending the body they announced; it does not range over inputs exceeding the announced length
+    (that refusal is property C04's clause).  The supported reading is the restricted one. *)
+From Hoot Require Import Httparse Parser Url Flow Script.
+From Hoot.proofs Require Import C17_proofs C18_reach C19_more.
+
+Theorem c19_mono_input_sized : forall c lft i1 i2 cap c1 n1 o1,
+  sized_body c lft false -> len i1 <= len i2 -> len i2 <= lft ->
+  call_write_body c i1 cap = Ok (c1, n1, o1) ->
+  exists c2 n2 o2, call_write_body c i2 cap = Ok (c2, n2, o2) /\ n1 <= n2.
+Proof. exact mono_input_sized. Qed.
+
+(** The advertised maximum for a sized body and a buffer of [cap] bytes is [cap] ([c18_advertised]).  Offering at
+    least that much (within the announced length) gives exactly the result of offering the first [cap] bytes
+    only, and [cap] bytes are consumed. *)
+Theorem c19_not_below_max_sized : forall c lft input cap,
+  sized_body c lft false -> cap <= len input -> len input <= lft ->
+  call_write_body c input cap = call_write_body c (take cap input) cap /\
+  exists c', call_write_body c input cap = Ok (c', cap, take cap input).
+Proof. exact not_below_max_sized. Qed.
+
+Theorem c19_sized_overoffer_refused : forall c lft input cap,
+  sized_body c lft false -> lft < len input ->
+  call_write_body c input cap = Err BodyLargerThanContentLength.
+Proof. exact sized_refusal. Qed.
+
+(** AT THE FLOW-LEVEL ENTRY POINT, BOTH FRAMINGS.  [accepts f input]: [f] is a flow in SendBody whose body is
+    not finished, and [input] is anything (chunked) or within the rest of the announced length (sized). *)
+Theorem c19_accepts_def : forall f input,
+  accepts f input <->
+  i_holder f = HWithBody /\
+  (chunked_body (i_call f) false \/ exists lft, sized_body (i_call f) lft false /\ len input <= lft).
+Proof. intros; reflexivity. Qed.
+
+(** Progress: non-empty accepted input, room for the smallest chunk -- 6 bytes when [is_chunked] answers true, 1
+    byte otherwise -- then at least one byte is consumed (and the output fits). *)
+Theorem c19_progress_flow : forall f input cap b,
+  accepts f input -> 1 <= len input ->
+  send_body_is_chunked f = Ok b -> (if b then 6 else 1) <= cap ->
+  exists f' used out, send_body_write f input cap = Ok (f', used, out) /\ 1 <= used /\ len out <= cap.
+Proof. exact progress_flow. Qed.
+
+(** Never less than the advertised maximum [m] the flow reports for that buffer, when at least [m] is offered. *)
+Theorem c19_not_below_max_flow : forall f input cap m,
+  accepts f input -> 1 <= len input ->
+  send_body_max_input f cap = Ok m -> m <= len input ->
+  exists f' used out, send_body_write f input cap = Ok (f', used, out) /\ m <= used.
+Proof. exact not_below_max_flow. Qed.
+
+(** Offering more (accepted) input never reduces progress. *)
+Theorem c19_mono_flow : forall f i1 i2 cap,
+  accepts f i2 -> 1 <= len i1 -> len i1 <= len i2 ->
+  exists f1 u1 o1 f2 u2 o2,
+    send_body_write f i1 cap = Ok (f1, u1, o1) /\ send_body_write f i2 cap = Ok (f2, u2, o2) /\ u1 <= u2.
+Proof. exact mono_flow. Qed.
+
+Theorem c19_refused_flow : forall f lft input cap,
+  i_holder f = HWithBody -> sized_body (i_call f) lft false -> lft < len input ->
+  send_body_write f input cap = Err BodyLargerThanContentLength.
+Proof. exact flow_sized_refusal. Qed.
+
+(** The caller loop on [Flow<SendBody>::write] ([send_all_flow]: [send_all] with [send_body_write]) finishes
+    within [length input] rounds. *)
+Theorem c19_send_all_flow_def : forall fuel f input cap out,
+  send_all_flow fuel f input cap out =
+    match input with
+    | [] => Some (f, out)
+    | _ :: _ =>
+        match fuel with
+        | O => None
+        | S k =>
+            match send_body_write f input cap with
+            | Ok (f', used, o) => send_all_flow k f' (drop used input) cap (out ++ o)
+            | _ => None
+            end
+        end
+    end.
+Proof. intros fuel f input; destruct fuel, input; reflexivity. Qed.
+
+Theorem c19_loop_flow : forall f input cap out,
+  i_holder f = HWithBody -> chunked_body (i_call f) false -> 6 <= cap ->
+  exists out', send_all_flow (List.length input) f input cap out = Some (f, out').
+Proof. exact loop_flow_chunked. Qed.
+
+Theorem c19_loop_flow_sized : forall f lft input cap out,
+  i_holder f = HWithBody -> sized_body (i_call f) lft false -> 1 <= cap -> len input <= lft ->
+  exists f' e, send_all_flow (List.length input) f input cap out = Some (f', out ++ input) /\
+               i_holder f' = HWithBody /\ sized_body (i_call f') (lft - len input) e.
+Proof. exact loop_flow_sized. Qed.
+
+(** Reachability: the flow [send_request_proceed] hands to SendBody (theorem [c18_send_body_reached] in
+    props/C18.v gives [i_holder f = HWithBody] and [body_state_of c0 (i_call f)]) accepts every input when the
+    request is chunked and every input within the announced Content-Length otherwise. *)
+Theorem c19_reached_accepts : forall c0 f input,
+  i_holder f = HWithBody -> body_state_of c0 (i_call f) ->
+  (forall v t, has_chunked_te (c_req c0) = false -> cls (c_req c0) = v :: t -> len input <= dec_value v) ->
+  accepts f input.
+Proof. exact reached_accepts. Qed.
+
+(** Examples REACHED BY RUNNING THE MODEL: POST through new / proceed / write_head / proceed. *)
+Definition ex19_uri : uri := {| u_scheme := s2b "http"; u_auth := s2b "a.test"; u_pq := s2b "/up" |}.
+Definition ex19_post (hs : list header) : request :=
+  {| rq_method := POST; rq_version := V11; rq_uri := ex19_uri; rq_headers := hs |}.
+Definition ex19_ops (hs : list header) : list op :=
+  [ONew (ex19_post hs); OProceed; OWriteHead 1000; OProceed].
+
+(** Chunked: [accepts] holds; 300 bytes offered with 21 bytes of room (the shape of the old F7 witness) consume
+    15; with 5 bytes of room nothing; 40 bytes go through a 6-byte buffer in exactly 40 rounds. *)
+Example c19_flow_nonvacuous_chunked :
+  match s_obj (run_ops s_init (ex19_ops [])) with
+  | ObFlow TSendBody f =>
+      accepts f (repeat 97 300) /\ send_body_is_chunked f = Ok true /\
+      send_body_max_input f 21 = Ok 13 /\
+      (match send_body_write f (repeat 97 300) 21 with Ok (f', used, out) => f' = f /\ used = 15 /\ len out = 20
+                                                  | _ => False end) /\
+      (match send_body_write f (repeat 97 300) 5 with Ok (_, used, out) => used = 0 /\ out = [] | _ => False end) /\
+      (match send_all_flow 40 f (repeat 97 40) 6 [] with Some (f', out) => f' = f /\ len out = 240 | None => False end) /\
+      send_all_flow 39 f (repeat 97 40) 6 [] = None
+  | _ => False
+  end.
+Proof. vm_compute. repeat split; auto. Qed.
+
+(** Content-Length: 50 -- 40 bytes are accepted, go through a 7-byte buffer verbatim, 10 are left. *)
+Example c19_flow_nonvacuous_sized :
+  match s_obj (run_ops s_init (ex19_ops [(s2b "content-length", s2b "50")])) with
+  | ObFlow TSendBody f =>
+      accepts f (repeat 97 40) /\ send_body_is_chunked f = Ok false /\ send_body_max_input f 7 = Ok 7 /\
+      (match send_body_write f (repeat 97 40) 1 with Ok (_, used, _) => used = 1 | _ => False end) /\
+      (match send_all_flow 40 f (repeat 97 40) 7 [] with
+       | Some (f', out) => out = repeat 97 40 /\ sized_body (i_call f') 10 false
+       | None => False
+       end)
+  | _ => False
+  end.
+Proof.
+  vm_compute. repeat split; auto. right. exists 50. vm_compute. repeat split; auto. discriminate.
+Qed.
+
+(** The unrestricted reading of monotonicity refuted on a model-reached call (Content-Length: 5): offering the 5
+    announced bytes consumes 5; offering 6 is refused and consumes nothing. *)
+Theorem c19_mono_unrestricted_refuted :
+  exists f i1 i2 cap,
+    s_obj (run_ops s_init (ex19_ops [(s2b "content-length", s2b "5")])) = ObFlow TSendBody f /\
+    sized_body (i_call f) 5 false /\ len i1 <= len i2 /\
+    (exists f1 o1, send_body_write f i1 cap = Ok (f1, 5, o1)) /\
+    send_body_write f i2 cap = Err BodyLargerThanContentLength /\
+    call_write_body (i_call f) i2 cap = Err BodyLargerThanContentLength.
+Proof.
+  eexists. exists (s2b "abcde"), (s2b "abcdef"), 10.
+  split; [vm_compute; reflexivity|]. split; [vm_compute; repeat split|].
+  split; [vm_compute; discriminate|]. split; [do 2 eexists; vm_compute; reflexivity|].
+  split; vm_compute; reflexivity.
+Qed.
 
 Print Assumptions c19_consumed.
 Print Assumptions c19_progress.
@@ -113,3 +278,18 @@ Print Assumptions c19_loop_sized.
 Print Assumptions c19_nonvacuous.
 Print Assumptions c19_code_max_chunk_fit.
 Print Assumptions c19_code_calculate_max_input.
+Print Assumptions c19_mono_input_sized.
+Print Assumptions c19_not_below_max_sized.
+Print Assumptions c19_sized_overoffer_refused.
+Print Assumptions c19_accepts_def.
+Print Assumptions c19_progress_flow.
+Print Assumptions c19_not_below_max_flow.
+Print Assumptions c19_mono_flow.
+Print Assumptions c19_refused_flow.
+Print Assumptions c19_send_all_flow_def.
+Print Assumptions c19_loop_flow.
+Print Assumptions c19_loop_flow_sized.
+Print Assumptions c19_reached_accepts.
+Print Assumptions c19_flow_nonvacuous_chunked.
+Print Assumptions c19_flow_nonvacuous_sized.
+Print Assumptions c19_mono_unrestricted_refuted.
